@@ -777,6 +777,10 @@ class C16(LiftProp):
                 side = rng.choice(["ref", "qry"])
                 dup[side][0] = c["chains"][k][side][0]
                 dup[side][1] = min(U64, max(dup[side][4], c["chains"][k][side][1] + rng.choice([-1, 1, 7])))
+                if rng.random() < 0.25:
+                    # the second declaration differs by exactly 2^64 (a 20-digit number beyond u64::MAX that a wrapping
+                    # parser would read as the same size): an unparsable header, hence no machine either
+                    dup[side][1] = c["chains"][k][side][1] + 2 ** 64
                 if dup[side][1] == c["chains"][k][side][1]:
                     dup[side][1] += 1 if dup[side][1] < U64 else -1
                 if dup[side][1] < dup[side][4]:
@@ -1126,6 +1130,14 @@ class LinesBase(Prop):
             if rng.random() < 0.6:
                 lines.insert(rng.randint(len(lines) - 40, len(lines)), render_class(rng, rng.choice(CLASSES)))
             yield {"kind": "lines", "lines": lines, "final_newline": rng.random() < 0.5, "eol": rng.choice(["\n", "\r\n"])}
+        for nb in ((3000, 20000) if tier == "quick" else (500, 3000, 20000, 100000)):
+            # a long run of blank lines before, between and after sections ("any number of blank lines")
+            secs = [rng.choice(HEADERS), rng.choice(TERM)]
+            for where in ("before", "between", "after"):
+                lines = {"before": [""] * nb + secs + [""] + secs,
+                         "between": secs + [""] * nb + secs,
+                         "after": secs + [""] + secs + [""] * nb}[where]
+                yield {"kind": "lines", "lines": lines, "final_newline": True, "eol": rng.choice(["\n", "\r\n"])}
         for _ in range(6 if tier == "quick" else 60):
             # very long lines (several times 64 KiB): one physical line must stay one line
             lines = gen_line_case(rng, tier)
@@ -1454,6 +1466,21 @@ def mutations(rng, chains_d):
         yield ("non-numeric size chain%d" % ci, l2)
         l2 = list(lines); l2[term] = "18446744073709551616"
         yield ("out-of-range size chain%d" % ci, l2)
+        # out-of-range numbers that are CONGRUENT to the right value modulo 2^64 (a parser that wraps would read the
+        # right number): every numeric field of the header and of every data line, + 2^64 (20 digits)
+        for di in data:
+            fs = lines[di].split("\t")
+            for k in range(len(fs)):
+                if fs[k].isdigit():
+                    f2 = list(fs); f2[k] = str(int(fs[k]) + 2 ** 64)
+                    l2 = list(lines); l2[di] = "\t".join(f2)
+                    yield ("data field %d + 2^64 chain%d" % (k, ci), l2)
+        hp = lines[hdr].split(" ")
+        for fi in (1, 3, 5, 6, 8, 10, 11, 12):
+            if len(hp) == 13 and hp[fi].isdigit():
+                p2 = list(hp); p2[fi] = str(int(hp[fi]) + 2 ** 64)
+                l2 = list(lines); l2[hdr] = " ".join(p2)
+                yield ("header field %d + 2^64 chain%d" % (fi, ci), l2)
         parts = lines[hdr].split(" ")
         for fi in (1, 3, 5, 6, 8, 10, 11, 12):
             l2 = list(lines); p2 = list(parts); p2[fi] = "18446744073709551616"; l2[hdr] = " ".join(p2)
@@ -1611,6 +1638,11 @@ class C12(Prop):
                 padded.append(t)
             padded += [""] * rng.randint(0, 2)
             out.append(("blank padding", [("c", ch.render_lines(padded, "\n", True))]))
+            if rng.random() < 0.15:
+                # ... and a really long run of blank lines at one of those places
+                k = rng.choice([i for i, t in enumerate(lines) if t.startswith("chain ")] + [len(lines)])
+                big = list(lines[:k]) + [""] * rng.choice([3000, 20000]) + list(lines[k:])
+                out.append(("blank padding", [("c", ch.render_lines(big, "\n", True))]))
         # k blank lines in front of ANY stream (with or without errors): every item up to and including the first
         # error is unchanged, except that a line number quoted by it grows by exactly k (theorem C12_blank_front_shift)
         k = rng.randint(1, 3)
